@@ -141,6 +141,19 @@ func dumpFlow(f *Flow) {
 				}
 			}
 		}
+		fmt.Printf(" ctxDyn=%v\n", f.ctxDyn[fn])
+		for kind, mm := range f.dyn {
+			for k, v := range mm[fn] {
+				fmt.Printf(" dyn[%s][%d]=%v\n", kind, k, v)
+			}
+		}
+		for _, b := range fn.Blocks {
+			for _, in := range b.Instrs {
+				if len(f.exec[in]) > 0 || len(f.kill[in]) > 0 {
+					fmt.Printf(" exec@%s gen=%v kill=%v\n", f.P.instrPos(in), f.exec[in], f.kill[in])
+				}
+			}
+		}
 		for k, v := range f.sumErr[fn] {
 			fmt.Printf(" sumErr[%d]=%v\n", k, v.list())
 		}
